@@ -17,7 +17,6 @@ use scylla::client::PoolSize;
 use scylla::client::execution_profile::{ExecutionProfile, ExecutionProfileHandle};
 use scylla::client::session::Session;
 use scylla::client::session_builder::SessionBuilder;
-use scylla::cluster::Node;
 use scylla::policies::load_balancing::{DefaultPolicy, LoadBalancingPolicy, NodeIdentifier, SingleTargetLoadBalancingPolicy};
 use scylla::routing::Token;
 use scylla::statement::prepared::PreparedStatement;
@@ -32,10 +31,15 @@ use vcore::Report;
 
 const PROBE: &str = "SELECT probe FROM c12.probe";
 const DEADLINE: Duration = mockcluster::DEADLINE;
+/// Set once a delivered tablet was not learnt within the deadline: later clusters do not wait for the same thing again.
+static TABLET_NOT_LEARNT: AtomicBool = AtomicBool::new(false);
 
-fn stmt_text(ks: &str) -> String {
-    format!("INSERT INTO {ks}.t (b, a) VALUES (?, ?)")
+/// Two statements per keyspace: a plain write and a conditional one (marked as LWT in the PREPARED flags, which
+/// sends the driver down its deterministic-replica-order path). Bind markers: (b, a); `a` is the partition key.
+fn stmt_text(ks: &str, lwt: bool) -> String {
+    if lwt { format!("UPDATE {ks}.t SET b = ? WHERE a = ? IF EXISTS") } else { format!("INSERT INTO {ks}.t (b, a) VALUES (?, ?)") }
 }
+const LWT_MASK: u32 = 0x8000_0000;
 
 struct TabletWorld {
     generation: AtomicUsize,
@@ -45,6 +49,7 @@ struct TabletWorld {
 
 #[derive(Clone, Debug)]
 struct Only {
+    lwt: bool,
     ks: String,
     policy: Policy,
     key: i32,
@@ -60,6 +65,9 @@ fn policy_handle(p: &Policy) -> ExecutionProfileHandle {
     let lbp: Arc<dyn LoadBalancingPolicy> = match p {
         Policy::Default => DefaultPolicy::builder().build(),
         Policy::PreferDc { dc, failover } => DefaultPolicy::builder().prefer_datacenter(dc.clone()).permit_dc_failover(*failover).build(),
+        Policy::PreferRack { dc, rack, failover } => DefaultPolicy::builder().prefer_datacenter_and_rack(dc.clone(), rack.clone()).permit_dc_failover(*failover).build(),
+        // the preference lives in the session configuration; the policy itself has none
+        Policy::SessionPrefer { failover, .. } => DefaultPolicy::builder().permit_dc_failover(*failover).build(),
     };
     ExecutionProfile::builder().load_balancing_policy(lbp).build().into_handle()
 }
@@ -68,9 +76,10 @@ fn pool_conns(cs: &[ConnInfo], node: usize) -> Vec<&ConnInfo> {
     cs.iter().filter(|c| c.node == node && c.open && c.ready && c.registered.is_empty()).collect()
 }
 
-/// Mock-side "pools are full": per node exactly the connections the pool size asks for.
-fn pools_full(layout: &Layout, cs: &[ConnInfo]) -> Option<BTreeSet<(usize, Option<u16>)>> {
-    let mut have = BTreeSet::new();
+/// Mock-side "pools are full": per node exactly the connections the pool size asks for, each READY, on distinct
+/// shards, and no connection anywhere that has not finished its handshake. Returns the pool connections.
+fn pools_full(layout: &Layout, cs: &[ConnInfo]) -> Option<Vec<ConnInfo>> {
+    let mut all = Vec::new();
     for (i, n) in layout.nodes.iter().enumerate() {
         let pc = pool_conns(cs, i);
         let shards: BTreeSet<Option<u16>> = pc.iter().map(|c| c.shard).collect();
@@ -81,15 +90,12 @@ fn pools_full(layout: &Layout, cs: &[ConnInfo]) -> Option<BTreeSet<(usize, Optio
         if pc.len() != want || shards.len() != want {
             return None;
         }
-        for s in shards {
-            have.insert((i, s));
-        }
+        all.extend(pc.into_iter().cloned());
     }
-    // every connection that started a handshake has finished it (nothing half-open that could still join a pool)
     if cs.iter().any(|c| c.open && !c.ready) {
         return None;
     }
-    Some(have)
+    Some(all)
 }
 
 async fn poll_until(what: &str, mut f: impl FnMut() -> bool) -> Result<(), String> {
@@ -103,10 +109,6 @@ async fn poll_until(what: &str, mut f: impl FnMut() -> bool) -> Result<(), Strin
         }
         tokio::time::sleep(Duration::from_micros(300)).await; // poll interval of a condition wait, not a verdict
     }
-}
-
-fn node_by_host(session: &Session, host: uuid::Uuid) -> Option<Arc<Node>> {
-    session.get_cluster_state().get_nodes_info().iter().find(|n| n.host_id == host).cloned()
 }
 
 /// The client-side view of the tablet table: (host id, shard) pairs its locator lists for the token.
@@ -129,12 +131,12 @@ struct Run<'a> {
 }
 
 impl Run<'_> {
-    fn case(&self, ks: &str, policy: &Policy, key: i32, generation: usize) -> Value {
-        json!({"desc": self.desc.to_json(), "only": {"ks": ks, "policy": policy.label(), "key": key, "generation": generation}})
+    fn case(&self, ks: &str, lwt: bool, policy: &Policy, key: i32, generation: usize) -> Value {
+        json!({"desc": self.desc.to_json(), "only": {"ks": ks, "lwt": lwt, "policy": policy.label(), "key": key, "generation": generation}})
     }
 
     /// One logical request + oracle. Returns the (node, shard) the first EXECUTE arrived on.
-    async fn request(&mut self, ps: &PreparedStatement, ks: &model::KsCfg, policy: &Policy, ck: &CellKey, generation: usize) -> Option<(usize, Option<u16>)> {
+    async fn request(&mut self, ps: &PreparedStatement, ks: &model::KsCfg, lwt: bool, policy: &Policy, ck: &CellKey, generation: usize) -> Option<(usize, Option<u16>)> {
         let r = self.r;
         self.serial += 1;
         let serial = self.serial;
@@ -148,7 +150,7 @@ impl Run<'_> {
             .filter(|e| e.opcode() == Some(Opcode::Execute) && e.frame().and_then(|f| f.request.params()).and_then(|p| p.values.first()).and_then(|v| v.as_bytes()) == Some(&serial_bytes[..]))
             .collect();
         r.eval(1);
-        let case = self.case(&ks.name, policy, ck.key, generation);
+        let case = self.case(&ks.name, lwt, policy, ck.key, generation);
         let res = match res {
             Ok(x) => x,
             Err(e) => {
@@ -160,7 +162,7 @@ impl Run<'_> {
         };
         let Some(first) = execs.first() else { machinery(&self.cluster, self.desc, &format!("request {case} succeeded but no EXECUTE frame carries its serial")) };
         let last = execs.last().unwrap();
-        if !first.is_stmt(&stmt_text(&ks.name)) {
+        if !first.is_stmt(&stmt_text(&ks.name, lwt)) {
             machinery(&self.cluster, self.desc, &format!("request {case}: EXECUTE resolves to {:?}", first.statement()));
         }
         let bound_key = first.frame().and_then(|f| f.request.params()).and_then(|p| p.values.get(1)).and_then(|v| v.as_bytes().map(|b| b.to_vec()));
@@ -171,11 +173,13 @@ impl Run<'_> {
             r.counters.add("requests_with_more_than_one_execute_frame", 1);
         }
         let (node, shard) = (first.node, first.shard);
-        let here = format!("{} ks={} policy={} key={} token={}", self.desc.label(), ks.name, policy.label(), ck.key, ck.token);
+        let here = format!("{} ks={}{} policy={} key={} token={}", self.desc.label(), ks.name, if lwt { " (LWT)" } else { "" }, policy.label(), ck.key, ck.token);
+        if lwt {
+            r.counters.add("lwt_requests", 1);
+        }
 
         // ---- the oracle proper
         let allowed = if ks.tablet_based { model::allowed_tablet(&self.layout, generation, policy, ck.token) } else { model::allowed_vnode(&self.layout, &ks.strat, policy, ck.token) };
-        let family = if ks.tablet_based { "tablet" } else { "vnode" };
         match &allowed {
             Allowed::Unconstrained { .. } => {
                 r.counters.add("requests_without_permitted_replica", 1);
@@ -234,7 +238,6 @@ impl Run<'_> {
                 }
             }
         }
-        let _ = family;
 
         // ---- QueryResult::request_coordinator agrees with the mock (connection that served the answer)
         let co = res.request_coordinator();
@@ -281,6 +284,13 @@ async fn run_cluster(r: &Report, desc: &Desc, only: Option<Only>) {
         if desc.tablets > 0 {
             spec = spec.tablets();
         }
+        if let (true, Some((nr, _))) = (desc.nat, n.shards) {
+            spec.plain_port_shard = mockcluster::PlainPortShard::Fixed(0);
+            spec.shard_port_map = Some((0..nr).map(|i| (nr - i) % nr).collect());
+        }
+        if n.shards.is_some() {
+            spec.lwt_mark = Some(LWT_MASK);
+        }
         b = b.node(spec);
     }
     for ks in &layout.keyspaces {
@@ -299,65 +309,108 @@ async fn run_cluster(r: &Report, desc: &Desc, only: Option<Only>) {
     let cluster = b.build().await.unwrap_or_else(|e| vcore::machinery_error(&e));
     let world = Arc::new(TabletWorld { generation: AtomicUsize::new(0), always_send: AtomicBool::new(false), payloads_sent: AtomicU64::new(0) });
     for ks in &layout.keyspaces {
-        let cols = vec![col(&ks.name, "t", "b", ColType::Int), col(&ks.name, "t", "a", ColType::Int)];
-        let mut s = Script::new(&stmt_text(&ks.name)).bind(cols, vec![1]);
-        if ks.tablet_based {
-            let (layout, world) = (layout.clone(), world.clone());
-            s = s.reply(move |ctx| {
-                // what ScyllaDB does: a request that reached a node/shard that is not a replica of the tablet gets the tablet back
-                let key = ctx.params().and_then(|p| p.values.get(1)).and_then(|v| v.as_bytes()).and_then(|b| <[u8; 4]>::try_from(b).ok());
-                let Some(key) = key else { return Reply::void() };
-                let token = cqlref::murmur3::murmur3_token(&key);
-                let generation = world.generation.load(Ordering::SeqCst);
-                let Some(t) = layout.tablet_of(generation, token) else { return Reply::void() };
-                let tab = &layout.tablet_maps[generation][t];
-                let here = (ctx.node, ctx.shard.map(|s| s as i32).unwrap_or(0));
-                if tab.replicas.contains(&here) && !world.always_send.load(Ordering::SeqCst) {
-                    return Reply::void();
-                }
-                world.payloads_sent.fetch_add(1, Ordering::SeqCst);
-                let reps: Vec<(uuid::Uuid, i32)> = tab.replicas.iter().map(|(n, s)| (ctx.cluster.host_id(*n), *s)).collect();
-                Reply::Frame(Envelope::from(Response::Void).with_payload(TABLETS_PAYLOAD_KEY, tablet_payload(tab.first_exclusive, tab.last, &reps)))
-            });
+        for lwt in [false, true] {
+            let cols = vec![col(&ks.name, "t", "b", ColType::Int), col(&ks.name, "t", "a", ColType::Int)];
+            let mut s = Script::new(&stmt_text(&ks.name, lwt)).bind(cols, vec![1]);
+            s.lwt = lwt;
+            if ks.tablet_based {
+                let (layout, world) = (layout.clone(), world.clone());
+                s = s.reply(move |ctx| {
+                    // what ScyllaDB does: a request that reached a node/shard that is not a replica of the tablet gets the tablet back
+                    let key = ctx.params().and_then(|p| p.values.get(1)).and_then(|v| v.as_bytes()).and_then(|b| <[u8; 4]>::try_from(b).ok());
+                    let Some(key) = key else { return Reply::void() };
+                    let token = cqlref::murmur3::murmur3_token(&key);
+                    let generation = world.generation.load(Ordering::SeqCst);
+                    let Some(t) = layout.tablet_of(generation, token) else { return Reply::void() };
+                    let tab = &layout.tablet_maps[generation][t];
+                    let here = (ctx.node, ctx.shard.map(|s| s as i32).unwrap_or(0));
+                    if tab.replicas.contains(&here) && !world.always_send.load(Ordering::SeqCst) {
+                        return Reply::void();
+                    }
+                    world.payloads_sent.fetch_add(1, Ordering::SeqCst);
+                    let reps: Vec<(uuid::Uuid, i32)> = tab.replicas.iter().map(|(n, s)| (ctx.cluster.host_id(*n), *s)).collect();
+                    Reply::Frame(Envelope::from(Response::Void).with_payload(TABLETS_PAYLOAD_KEY, tablet_payload(tab.first_exclusive, tab.last, &reps)))
+                });
+            }
+            cluster.script(s);
         }
-        cluster.script(s);
     }
     cluster.script(Script::new(PROBE));
 
-    // ---- the session
-    let one = NonZeroUsize::new(1).unwrap();
-    let session = SessionBuilder::new()
-        .known_node(cluster.contact_point(0))
-        .pool_size(if desc.per_shard { PoolSize::PerShard(one) } else { PoolSize::PerHost(one) })
-        .build()
-        .await
-        .unwrap_or_else(|e| machinery(&cluster, desc, &format!("session did not come up: {e}")));
+    // ---- one session without a location preference, then one per datacenter preferred at session level
+    let mut cfgs: Vec<Option<String>> = vec![None];
+    cfgs.extend(layout.dcs.iter().cloned().map(Some));
+    let mut outcomes: BTreeSet<(usize, Option<u16>)> = BTreeSet::new();
+    for session_pref in cfgs {
+        if let Some(o) = &only {
+            let wanted = match &o.policy {
+                Policy::SessionPrefer { dc, .. } => Some(dc.clone()),
+                _ => None,
+            };
+            if wanted != session_pref {
+                continue;
+            }
+        }
+        if !run_session(r, desc, &layout, &cluster, &world, &keys, session_pref, &only, &mut outcomes).await {
+            cluster.shutdown().await;
+            return;
+        }
+    }
+    if let Some(u) = cluster.unexpected().first() {
+        machinery(&cluster, desc, &format!("unscripted request reached the mock: {}", u.describe()));
+    }
+    r.counters.add("clusters", 1);
+    r.counters.add("distinct_first_targets_summed_over_clusters", outcomes.len() as u64);
+    r.counters.max("max_distinct_first_targets_in_one_cluster", outcomes.len() as u64);
+    r.counters.add("cell_keys", keys.len() as u64);
+    cluster.shutdown().await;
+}
 
-    // ---- pools full: mock side, then client side
-    let pool_has = cluster.wait_conns("every pool has its connections READY", DEADLINE, |cs| pools_full(&layout, cs)).await.unwrap_or_else(|e| machinery(&cluster, desc, &e));
+/// One session against the cluster: wait for full pools, prepare, (learn tablets,) run every request. False = stop
+/// working on this cluster (a violation that makes the rest meaningless was recorded).
+#[allow(clippy::too_many_arguments)]
+async fn run_session(r: &Report, desc: &Desc, layout: &Arc<Layout>, cluster: &MockCluster, world: &Arc<TabletWorld>, keys: &[CellKey], session_pref: Option<String>, only: &Option<Only>, outcomes: &mut BTreeSet<(usize, Option<u16>)>) -> bool {
+    let cluster = cluster.clone();
+    let one = NonZeroUsize::new(1).unwrap();
+    let mut sb = SessionBuilder::new().known_node(cluster.contact_point(0)).pool_size(if desc.per_shard { PoolSize::PerShard(one) } else { PoolSize::PerHost(one) });
+    if let Some(dc) = &session_pref {
+        sb = sb.prefer_datacenter(dc.clone());
+    }
+    let session = sb.build().await.unwrap_or_else(|e| machinery(&cluster, desc, &format!("session did not come up: {e}")));
+    r.counters.add("sessions", 1);
+    // ---- pools full: mock side (every pool connection READY), then client side: every one of those connections
+    // has carried a probe, i.e. the client has put it into its pool (however it filed it)
+    let pool = cluster.wait_conns("every pool has its connections READY", DEADLINE, |cs| pools_full(layout, cs)).await.unwrap_or_else(|e| machinery(&cluster, desc, &e));
+    let pool_has: BTreeSet<(usize, Option<u16>)> = pool.iter().map(|c| (c.node, c.shard)).collect();
     for i in 0..layout.nodes.len() {
         let host = cluster.host_id(i);
-        let s2 = &session;
-        poll_until(&format!("client reports node {i} connected"), || node_by_host(s2, host).map(|n| n.is_connected()).unwrap_or(false)).await.unwrap_or_else(|e| machinery(&cluster, desc, &e));
-        if let (true, Some((nr, _))) = (desc.per_shard, layout.nodes[i].shards) {
-            for shard in 0..nr {
-                let mut probe = Statement::new(PROBE);
-                let lbp = SingleTargetLoadBalancingPolicy::new(NodeIdentifier::HostId(host), Some(shard as u32));
-                probe.set_execution_profile_handle(Some(ExecutionProfile::builder().load_balancing_policy(lbp).build().into_handle()));
-                let t0 = Instant::now();
-                loop {
-                    let from = cluster.log_len();
-                    let ok = session.query_unpaged(probe.clone(), ()).await.is_ok();
-                    let hit = cluster.log_since(from).iter().any(|e| e.is_stmt(PROBE) && e.node == i && e.shard == Some(shard));
-                    r.counters.add("pool_probes", 1);
-                    if ok && hit {
-                        break;
-                    }
-                    if t0.elapsed() > DEADLINE {
-                        machinery(&cluster, desc, &format!("no probe aimed at node {i} shard {shard} ever arrived there"));
-                    }
-                    tokio::time::sleep(Duration::from_micros(300)).await;
+        let want: BTreeSet<u64> = pool.iter().filter(|c| c.node == i).map(|c| c.id).collect();
+        let aims: Vec<Option<u32>> = match layout.nodes[i].shards {
+            Some((nr, _)) => (0..nr as u32).map(Some).collect(),
+            None => vec![None],
+        };
+        let mut seen: BTreeSet<u64> = BTreeSet::new();
+        let t0 = Instant::now();
+        let mut k = 0usize;
+        while !want.is_subset(&seen) {
+            let mut probe = Statement::new(PROBE);
+            let lbp = SingleTargetLoadBalancingPolicy::new(NodeIdentifier::HostId(host), aims[k % aims.len()]);
+            probe.set_execution_profile_handle(Some(ExecutionProfile::builder().load_balancing_policy(lbp).build().into_handle()));
+            k += 1;
+            let from = cluster.log_len();
+            let ok = session.query_unpaged(probe, ()).await.is_ok();
+            let before = seen.len();
+            for e in cluster.log_since(from) {
+                if e.is_stmt(PROBE) && e.node == i {
+                    seen.insert(e.conn);
                 }
+            }
+            r.counters.add("pool_probes", 1);
+            if t0.elapsed() > DEADLINE {
+                machinery(&cluster, desc, &format!("probes aimed at node {i} reached connections {seen:?} only, the mock has {want:?} READY"));
+            }
+            if !ok || seen.len() == before {
+                tokio::time::sleep(Duration::from_micros(200)).await; // poll interval of a condition wait
             }
         }
     }
@@ -377,23 +430,34 @@ async fn run_cluster(r: &Report, desc: &Desc, only: Option<Only>) {
     }
 
     // ---- prepared statements
-    let mut prepared: BTreeMap<String, PreparedStatement> = BTreeMap::new();
+    let mut prepared: BTreeMap<(String, bool), PreparedStatement> = BTreeMap::new();
     for ks in &layout.keyspaces {
-        let ps = session.prepare(stmt_text(&ks.name)).await.unwrap_or_else(|e| machinery(&cluster, desc, &format!("prepare for {}: {e}", ks.name)));
-        if ps.get_variable_pk_indexes().len() != 1 {
-            machinery(&cluster, desc, "partition key index did not arrive");
+        for lwt in [false, true] {
+            let ps = session.prepare(stmt_text(&ks.name, lwt)).await.unwrap_or_else(|e| machinery(&cluster, desc, &format!("prepare for {}: {e}", ks.name)));
+            if ps.get_variable_pk_indexes().len() != 1 {
+                machinery(&cluster, desc, "partition key index did not arrive");
+            }
+            // the mark only exists on ScyllaDB nodes; the PREPARED answer the driver keeps is the first one it got
+            let all_scylla = layout.nodes.iter().all(|n| n.shards.is_some());
+            if all_scylla && ps.is_confirmed_lwt() != lwt {
+                machinery(&cluster, desc, "LWT mark did not arrive as scripted");
+            }
+            prepared.insert((ks.name.clone(), lwt), ps);
         }
-        prepared.insert(ks.name.clone(), ps);
     }
 
     let replaying = only.is_some();
     let mut run = Run { r, desc, layout: layout.clone(), cluster: cluster.clone(), session, pool_has, serial: 0, replaying };
-    let policies = model::policies(&layout);
+    let policies = match &session_pref {
+        None => model::policies(layout),
+        Some(dc) => model::session_policies(dc),
+    };
+    // session-level preference: one pass per request (the same code below the preference lookup was repeated above)
+    let base_repeats = if session_pref.is_some() { 1 } else { desc.repeats.max(1) };
     let generations: usize = if desc.tablets > 0 { 2 } else { 1 };
-    let mut outcomes: BTreeSet<(usize, Option<u16>)> = BTreeSet::new();
 
     for generation in 0..generations {
-        if let Some(o) = &only {
+        if let Some(o) = only {
             if generation > o.generation {
                 break;
             }
@@ -401,15 +465,19 @@ async fn run_cluster(r: &Report, desc: &Desc, only: Option<Only>) {
         // ---- tablets: deliver the map of this generation through payloads, wait until the client lists it
         if desc.tablets > 0 {
             let tks = layout.keyspaces.iter().find(|k| k.tablet_based).unwrap().clone();
-            let mut ps = prepared[TABLET_KS].clone();
+            let mut ps = prepared[&(TABLET_KS.to_string(), false)].clone();
             ps.set_execution_profile_handle(Some(policy_handle(&Policy::Default)));
             if generation == 0 {
                 // not known yet: the client must list nothing for any token of the tablet table
-                for ck in &keys {
+                for ck in keys.iter() {
                     if !client_tablet_view(&run.session, ck.token).is_empty() {
                         machinery(&cluster, desc, "client lists tablet replicas before any payload was sent");
                     }
                 }
+            }
+            if TABLET_NOT_LEARNT.load(Ordering::SeqCst) {
+                r.counters.add("clusters_cut_short_after_tablet_not_learnt", 1);
+                return false;
             }
             world.generation.store(generation, Ordering::SeqCst);
             world.always_send.store(true, Ordering::SeqCst);
@@ -426,14 +494,18 @@ async fn run_cluster(r: &Report, desc: &Desc, only: Option<Only>) {
                 let want: BTreeSet<(uuid::Uuid, u32)> = tab.replicas.iter().map(|(n, s)| (cluster.host_id(*n), *s as u32)).collect();
                 let s2 = &run.session;
                 let token = ck.token;
-                if let Err(e) = poll_until("client lists the delivered tablet", || client_tablet_view(s2, token) == want).await {
+                if let Err(e) = poll_until("client lists the delivered tablet", || client_tablet_view(s2, token) == want || TABLET_NOT_LEARNT.load(Ordering::SeqCst)).await {
+                    TABLET_NOT_LEARNT.store(true, Ordering::SeqCst);
                     r.violation(
                         "tablet:payload-not-learnt",
                         &format!("{}: tablet {t} of generation {generation} ({:?}) was delivered in a custom payload but the client's locator lists {:?} for token {token} ({e})", desc.label(), tab.replicas, client_tablet_view(s2, token)),
-                        run.case(&tks.name, &Policy::Default, ck.key, generation),
+                        run.case(&tks.name, false, &Policy::Default, ck.key, generation),
                     );
-                    cluster.shutdown().await;
-                    return;
+                    return false;
+                }
+                if client_tablet_view(s2, token) != want {
+                    r.counters.add("clusters_cut_short_after_tablet_not_learnt", 1);
+                    return false;
                 }
             }
             world.always_send.store(false, Ordering::SeqCst);
@@ -447,18 +519,20 @@ async fn run_cluster(r: &Report, desc: &Desc, only: Option<Only>) {
                 if generation > 0 && !ks.tablet_based && only.is_none() && policy != &Policy::Default {
                     continue; // second tablet generation: vnode keyspaces are re-checked under the default policy only
                 }
-                let mut ps = prepared[&ks.name].clone();
-                ps.set_execution_profile_handle(Some(handle.clone()));
-                for ck in &keys {
-                    if let Some(o) = &only {
-                        if o.ks != ks.name || &o.policy != policy || o.key != ck.key || o.generation != generation {
-                            continue;
+                for lwt in [false, true] {
+                    let mut ps = prepared[&(ks.name.clone(), lwt)].clone();
+                    ps.set_execution_profile_handle(Some(handle.clone()));
+                    for ck in keys.iter() {
+                        if let Some(o) = only {
+                            if o.ks != ks.name || o.lwt != lwt || &o.policy != policy || o.key != ck.key || o.generation != generation {
+                                continue;
+                            }
                         }
-                    }
-                    let repeats = if run.replaying { 16 } else { 1 };
-                    for _ in 0..repeats {
-                        if let Some(x) = run.request(&ps, ks, policy, ck, generation).await {
-                            outcomes.insert(x);
+                        let repeats = if run.replaying { 16 } else { base_repeats };
+                        for _ in 0..repeats {
+                            if let Some(x) = run.request(&ps, ks, lwt, policy, ck, generation).await {
+                                outcomes.insert(x);
+                            }
                         }
                     }
                 }
@@ -472,15 +546,10 @@ async fn run_cluster(r: &Report, desc: &Desc, only: Option<Only>) {
     if conns_at_start != conns_at_end {
         machinery(&cluster, desc, "the set of open connections changed while the requests ran");
     }
-    if let Some(u) = cluster.unexpected().first() {
-        machinery(&cluster, desc, &format!("unscripted request reached the mock: {}", u.describe()));
-    }
-    r.counters.add("clusters", 1);
-    r.counters.add("distinct_first_targets_summed_over_clusters", outcomes.len() as u64);
-    r.counters.max("max_distinct_first_targets_in_one_cluster", outcomes.len() as u64);
-    r.counters.add("cell_keys", keys.len() as u64);
-    cluster.shutdown().await;
+    // close this session's connections before the next session counts its own
     drop(run);
+    cluster.wait_conns("previous session's connections closed", DEADLINE, |cs| cs.iter().all(|c| !c.open).then_some(())).await.unwrap_or_else(|e| machinery(&cluster, desc, &e));
+    true
 }
 
 fn block_on_cluster(r: &Report, desc: &Desc, only: Option<Only>) {
@@ -505,6 +574,7 @@ fn main() {
         let desc = Desc::from_json(&case["desc"]).unwrap_or_else(|| vcore::machinery_error("replay: bad desc"));
         let o = &case["only"];
         let only = Only {
+            lwt: o["lwt"].as_bool().unwrap_or(false),
             ks: o["ks"].as_str().unwrap_or("s1").to_string(),
             policy: Policy::parse(o["policy"].as_str().unwrap_or("default")).unwrap_or(Policy::Default),
             key: o["key"].as_i64().unwrap_or(0) as i32,
@@ -530,11 +600,12 @@ fn main() {
     vcore::par::for_each(jobs, 1, descs.into_iter(), |d| block_on_cluster(r_ref, &d, None));
 
     r.note("clusters_enumerated", json!(total));
-    r.set_rule("E-MOCK. Clusters: node counts 1..4 (thorough ..6) x DC splits {one DC, two DCs (every split with the larger half first)} x shard patterns {unsharded, 1, 2, 3 shards, two mixed patterns giving every node another sharder (thorough: 8 shards and three more mixes)} x pool {PerShard(1), PerHost(1)} x tablets {off, on (all-sharded clusters)}; 2 vnodes per node (thorough 2 and 3), tokens jittered around an equal division. Inside every cluster: keyspaces Simple RF 1,2,3, NTS {dc1:1,dc2:1}, {dc1:2,dc2:1}, {dc2:2} (+ tablet keyspace), all with a table `t`, x policies {default, prefer each DC with and without failover} x one key (thorough two) per cell, cell = (segment of the token space: ring interval / wrap halves / tablet boundary refinement) x sharder configuration x owning shard, keys found by walking 0,1,2,.. with the reference Murmur3. Per request: node and server-side shard of the connection of the first EXECUTE carrying the request's serial vs. the reference replica list (narrowed to the preferred DC when it holds a replica; all nodes are up), shard_of(token) of that node when the pool holds that connection, the tablet's (node, shard) for the tablet table after the payload was delivered and the client lists it (two map generations), request_coordinator() vs. the serving connection. distinct_nontrivial = requests whose permitted first targets are a strict subset of the nodes.");
+    r.set_rule("E-MOCK. Clusters: node counts 1..4 (thorough ..6) x DC splits {one DC, every two-DC split with the larger half first} x shard patterns {unsharded, 1, 2, 3 shards, two mixes giving every node another sharder incl. msb_ignore 0 (thorough: 8 shards and three more mixes)} x pool {PerShard(1), PerHost(1)} x tablets {off, on (all-sharded clusters)} x vnodes per node {1,2,3} (thorough ..4), tokens jittered around an equal division, owners shuffled; plus NAT clusters (3 shards, thorough also 8) where the server binds a shard-aware-port connection to another shard than the one asked for. Inside every cluster: a session without location preference and one session per DC preferred at session level; keyspaces Simple RF 1,2,3, NTS {dc1:1,dc2:1}, {dc1:2,dc2:1}, {dc2:2} (+ tablet keyspace), all with a table `t`, x statements {plain, LWT-marked} x policies {default, prefer each DC with / without failover, prefer dc1/r2 with / without failover | session-level preference with / without failover} x one key (thorough two) per cell x 2 repeats, cell = (segment of the token space: ring interval / wrap halves / tablet boundary refinement) x sharder configuration x owning shard; cell emptiness and size computed from the reference shard function, every cell of >= 2^50 tokens must be hit; keys found by walking 0,1,2,.. with the reference Murmur3. Per request: node and server-side shard of the connection of the first EXECUTE carrying the request's serial vs. the reference replica list (narrowed to the preferred DC when it holds a replica; all nodes are up), shard_of(token) of that node when the pool holds a connection bound to it, the tablet's (node, shard) for the tablet table after the payload was delivered and the client lists it (two map generations, the second replacing the first), request_coordinator() (host id, shard, address) vs. the connection that served the answer. distinct_nontrivial = requests whose permitted first targets are a strict subset of the nodes.");
     let full = r.counters.get("cells_hit") == r.counters.get("cells_total") && r.counters.get("clusters") == total as u64;
     r.set_exhaustive(full);
     r.assume("all nodes up and connected for the whole run (checked: the set of open connections is the same before and after); client-internal scheduling and the thread RNG that picks among replicas are not controlled: the oracle is membership in the reference set, valid for every pick");
     r.assume("token boundaries themselves (token == ring token) are not reachable by key search; C04 covers them at the locator");
-    r.sample(json!({"example_cluster": model::enumerate(false).get(40).map(|d| d.to_json())}));
+    r.assume("LWT-marked statements are held to the same membership oracle (the property does not single them out); rack preference is held to the datacenter rule only");
+    r.sample(json!({"example_cluster": model::enumerate(false).get(200).map(|d| d.to_json())}));
     r.finish();
 }
